@@ -37,6 +37,7 @@ class Gen:
     def __init__(self, E, rng):
         self.E, self.rng = E, rng
         self.pool = {}       # class qualname -> generated instances (for ANY('Cls') domains and sharing)
+        self.opaques = []    # every opaque value handed out (domain of ANY('Opaque'))
 
     def value(self, ty, hint="", depth=0):
         r = self.rng
@@ -66,7 +67,7 @@ class Gen:
             out = {}
             for _ in range(n):
                 try:
-                    out[self.value(ty.k, hint, depth + 1)] = self.value(ty.v, hint, depth + 1)
+                    out[self.value(ty.k, "", depth + 1)] = self.value(ty.v, hint, depth + 1)
                 except TypeError:
                     pass
             tag = getattr(ty, "cls", None)
@@ -86,10 +87,15 @@ class Gen:
         if ty is OPAQUE:
             h = hint.lower()
             if any(w in h for w in ("path", "file", "director")):
-                return r.choice(PATH_POOL)
-            if "node" in h:
-                return _node(r)
-            return _Token(hint or "opaque", r.randrange(3))
+                v = r.choice(PATH_POOL)
+            elif "node" in h:
+                v = _node(r)
+            elif hint == "":
+                v = r.choice(PATH_POOL[:3])      # anonymous opaque (dict keys ...): a tiny shared domain so that keys collide
+            else:
+                v = _Token(hint or "opaque", r.randrange(3))
+            self.opaques.append(v)
+            return v
         raise Skip(f"no generator for {ty}")
 
     def record(self, ty, depth):
@@ -201,7 +207,14 @@ def _spec_env(E, gen, reg):
                     out.extend(insts)
             return out
         if ty is OPAQUE:
-            return list(PATH_POOL)
+            out = list(PATH_POOL)
+            for v in gen.opaques:
+                try:
+                    if v not in out:
+                        out.append(v)
+                except Exception:
+                    pass
+            return out
         raise Skip(f"ANY({t})")
 
     def lookup(d, k, default):
@@ -273,9 +286,15 @@ def search(E, reg, qualname, contract, targets, seed=0, tries=400):
     reqs = [compile(ast.parse(r, mode="eval"), "<requires>", "eval") for r in contract.requires if not _uses_unsupported(r)]
     g = getattr(fn, "__globals__", {})
     patches = _stub_trusted(E, reg, rng)
+    import logging
+    import io
+    import contextlib
+    logging.disable(logging.CRITICAL)
     try:
-        _search_loop(E, reg, contract, fn, owner, ptys, rng, todo, compiled, reqs, g, out, tries)
+        with contextlib.redirect_stderr(io.StringIO()), contextlib.redirect_stdout(io.StringIO()):
+            _search_loop(E, reg, contract, fn, owner, ptys, rng, todo, compiled, reqs, g, out, tries)
     finally:
+        logging.disable(logging.NOTSET)
         for owner_obj, name, orig in patches:
             setattr(owner_obj, name, orig)
     return out
@@ -301,7 +320,7 @@ def _stub_trusted(E, reg, rng):
         memo = {}
 
         def stub(*a, _memo=memo, _rty=rty, _pn=pnames, _ens=ens):
-            key = tuple(id(x) for x in a)
+            key = tuple(_stable_key(x) for x in a)
             if key not in _memo:
                 gen = Gen(E, rng)
                 for _ in range(50):
@@ -318,6 +337,21 @@ def _stub_trusted(E, reg, rng):
         patches.append((owner, name, owner.__dict__[name]))
         setattr(owner, name, stub)
     return patches
+
+
+def _stable_key(x):
+    """argument identity for the memoised stubs that survives deepcopy (old(...) snapshots)"""
+    try:
+        import libcst as cst
+        if isinstance(x, cst.CSTNode):
+            return ("cst", repr(x))
+    except Exception:
+        pass
+    if isinstance(x, (int, str, bool, float, bytes, type(None), Path)):
+        return ("v", type(x).__name__, str(x))
+    if isinstance(x, (_Token,)):
+        return ("tok", x.name, x.i)
+    return ("obj", type(x).__name__)
 
 
 def _search_loop(E, reg, contract, fn, owner, ptys, rng, todo, compiled, reqs, g, out, tries):
